@@ -136,6 +136,13 @@ class OwnAnalyzer:
             if t['c'] in ('record', 'array'):
                 self.local_records[d['d']] = d['n']
         self.param_ids = {p['d'] for p in fn.params}
+        assigned = set()
+        for x in fn.nodes():
+            if x.get('k') == 'bin' and x['op'] in ASSIGN_OPS and is_ref(x['l']):
+                assigned.add(strip_casts(x['l'])['d'])
+            if x.get('k') == 'un' and x['op'] == '&' and is_ref(x['e']):
+                assigned.add(strip_casts(x['e'])['d'])
+        self.unassigned_params = self.param_ids - assigned
         self.inlined = False
         self.depth = 0
 
@@ -918,6 +925,10 @@ class OwnAnalyzer:
             return st if isnull else None
         if v[0] in ('tok', 'nn'):
             return None if isnull else st
+        if isnull and v == UNK and key[0] == 'v' and key[1] in self.unassigned_params:
+            # a defensive test of a parameter says nothing about what callers pass: whether a parameter may be NULL is decided
+            # where NULL arguments are the subject (LST4), not inferred from a test that happens to be there
+            return st
         st = st.copy()
         st.vals[key] = NULL if isnull else NN
         return st
